@@ -1,4 +1,5 @@
 import GdVerif.Lemmas.Gs3Faults
+import GdVerif.Lemmas.Gs3CutFaults
 import GdVerif.Props.C04_gs3
 /-
   C10 on WHOLE GameSpy 3 queries with faults injected.
@@ -225,3 +226,116 @@ example (port : Nat) (restQ : List Delivery) :
   have hm := C10_gs3_query_malformed_not_retried C04_gs3_exampleConfigX C04_gs3_exampleState C04_gs3_exampleX_wf port 7 _
     (List.Perm.refl _) [] (by decide) (by decide) .data C10_gs3_demoGot (by decide) [0xFF, 0xFF] (by decide) restQ []
   exact ⟨by decide, by decide, h.1, h.2.2, hm.1⟩
+
+/-! ### replies whose packets may end inside value lists (`Spec.ConfigC` / `Spec.wfC`, see `Props/C04_gs3.lean`)
+
+The same statements for the domain of `C04_gs3_query_cut`: any allowed extra sections, any packets that end inside the
+value list of their last section.  Plans, flags and the prescribed outcome do not mention the layout; scripts and sends
+take only the challenge from the configuration (`cfg.closed`), the data packets are `dataPacketsC`.  Replies that close
+every list are the case `cfg.toC` (`C10_gs3_faults_cut_conservative`). -/
+
+theorem C10_gs3_query_faulty_cut (cfg : ConfigC) (st : State) (h : wfC cfg st = true) (port retries : Nat)
+    (arrival : List Bytes) (harr : arrival.Perm (dataPacketsC cfg st)) (plan : Plan)
+    (hplan : wfPlan retries (dataPacketsC cfg st) plan = true) (restQ : List Delivery) (restF : List Bool) :
+    (Gs3.query port retries
+        (Net.init [.opened (faultyScriptX cfg.closed plan arrival ++ restQ)] (faultyFaults plan ++ restF))).1
+      = faultyExpected st plan
+    ∧ Gd.sentOf (Gs3.query port retries
+        (Net.init [.opened (faultyScriptX cfg.closed plan arrival ++ restQ)] (faultyFaults plan ++ restF))).2.log
+      = faultySendsX cfg.closed plan := by
+  rw [query_eq, ← faultyExpected_eqC cfg st h plan]
+  exact exchange_faultyC cfg st h port retries buildResponse arrival harr plan hplan restQ restF
+
+theorem C10_gs3_query_vars_faulty_cut (cfg : ConfigC) (st : State) (h : wfC cfg st = true) (port retries : Nat)
+    (arrival : List Bytes) (harr : arrival.Perm (dataPacketsC cfg st)) (plan : Plan)
+    (hplan : wfPlan retries (dataPacketsC cfg st) plan = true) (restQ : List Delivery) (restF : List Bool) :
+    (Gs3.queryVars port retries
+        (Net.init [.opened (faultyScriptX cfg.closed plan arrival ++ restQ)] (faultyFaults plan ++ restF))).1
+      = (faultyPacketsC cfg st plan >>= buildVars)
+    ∧ Gd.sentOf (Gs3.queryVars port retries
+        (Net.init [.opened (faultyScriptX cfg.closed plan arrival ++ restQ)] (faultyFaults plan ++ restF))).2.log
+      = faultySendsX cfg.closed plan := by
+  rw [queryVars_eq]
+  exact exchange_faultyC cfg st h port retries buildVars arrival harr plan hplan restQ restF
+
+/-- (a) RECOVERY on such a reply -/
+theorem C10_gs3_query_recovers_cut (cfg : ConfigC) (st : State) (h : wfC cfg st = true) (port retries : Nat)
+    (arrival : List Bytes) (harr : arrival.Perm (dataPacketsC cfg st)) (fails : List Attempt)
+    (hk : fails.length ≤ retries) (hw : ∀ a ∈ fails, a.wf (dataPacketsC cfg st) = true) (restQ : List Delivery)
+    (restF : List Bool) :
+    let plan : Plan := ⟨fails, .valid⟩
+    let out := Gs3.query port retries
+        (Net.init [.opened (faultyScriptX cfg.closed plan arrival ++ restQ)] (faultyFaults plan ++ restF))
+    out.1 = .ok (expected st)
+    ∧ Gd.sentOf out.2.log = fails.flatMap (Attempt.sendsX cfg.closed) ++ [(handshakeRequest, false), (dataRequest cfg.challenge, false)]
+    ∧ attemptsOf (Gd.sentOf out.2.log) = fails.length + 1 := by
+  intro plan out
+  obtain ⟨h1, h2⟩ := C10_gs3_query_faulty_cut cfg st h port retries arrival harr plan
+    (by simp only [plan, wfPlan, Bool.and_eq_true, List.all_eq_true, decide_eq_true_eq]; exact ⟨hw, hk⟩) restQ restF
+  refine ⟨h1, h2, ?_⟩
+  show attemptsOf (Gd.sentOf out.2.log) = _
+  rw [show Gd.sentOf out.2.log = _ from h2, attemptsOf_planX]
+  rfl
+
+/-- (b) EXHAUSTION on such a reply -/
+theorem C10_gs3_query_exhausted_cut (cfg : ConfigC) (st : State) (h : wfC cfg st = true) (port retries : Nat)
+    (arrival : List Bytes) (harr : arrival.Perm (dataPacketsC cfg st)) (fails : List Attempt)
+    (hk : fails.length = retries + 1) (hw : ∀ a ∈ fails, a.wf (dataPacketsC cfg st) = true) (restQ : List Delivery)
+    (restF : List Bool) :
+    let plan : Plan := ⟨fails, .gaveUp⟩
+    let out := Gs3.query port retries
+        (Net.init [.opened (faultyScriptX cfg.closed plan arrival ++ restQ)] (faultyFaults plan ++ restF))
+    out.1 = .err (lastError Attempt.error fails)
+    ∧ (out.1 = .err .packetReceive ∨ out.1 = .err .packetSend)
+    ∧ attemptsOf (Gd.sentOf out.2.log) = retries + 1 := by
+  intro plan out
+  obtain ⟨h1, h2⟩ := C10_gs3_query_faulty_cut cfg st h port retries arrival harr plan
+    (by simp only [plan, wfPlan, Bool.and_eq_true, List.all_eq_true, beq_iff_eq]; exact ⟨hw, hk⟩) restQ restF
+  have h1' : out.1 = .err (lastError Attempt.error fails) := h1
+  refine ⟨h1', ?_, ?_⟩
+  · rw [h1']
+    rcases lastError_class fails with e | e <;> rw [e] <;> simp
+  · show attemptsOf (Gd.sentOf out.2.log) = _
+    rw [show Gd.sentOf out.2.log = _ from h2, attemptsOf_planX]
+    simp [plan, Plan.attempts, hk]
+
+/-- (c) A MALFORMED REPLY IS NOT RETRIED on such a reply -/
+theorem C10_gs3_query_malformed_not_retried_cut (cfg : ConfigC) (st : State) (h : wfC cfg st = true) (port retries : Nat)
+    (arrival : List Bytes) (harr : arrival.Perm (dataPacketsC cfg st)) (fails : List Attempt)
+    (hk : fails.length ≤ retries) (hw : ∀ a ∈ fails, a.wf (dataPacketsC cfg st) = true) (stage : Stage)
+    (got : List Bytes) (hgot : gotAt (dataPacketsC cfg st) stage false got = true) (m : Bytes)
+    (hm : malformedAt stage m = true) (restQ : List Delivery) (restF : List Bool) :
+    let plan : Plan := ⟨fails, .malformed stage got m⟩
+    let out := Gs3.query port retries
+        (Net.init [.opened (faultyScriptX cfg.closed plan arrival ++ restQ)] (faultyFaults plan ++ restF))
+    out.1 = .err (malformedError m)
+    ∧ (malformedError m).isTimeout = false
+    ∧ attemptsOf (Gd.sentOf out.2.log) = fails.length + 1 := by
+  intro plan out
+  obtain ⟨h1, h2⟩ := C10_gs3_query_faulty_cut cfg st h port retries arrival harr plan
+    (by simp only [plan, wfPlan, Bool.and_eq_true, List.all_eq_true, decide_eq_true_eq]; exact ⟨hw, ⟨hk, hm⟩, hgot⟩)
+    restQ restF
+  refine ⟨h1, malformedError_not_timeout m, ?_⟩
+  show attemptsOf (Gd.sentOf out.2.log) = _
+  rw [show Gd.sentOf out.2.log = _ from h2, attemptsOf_planX]
+  rfl
+
+/-- REPLIES THAT CLOSE EVERY VALUE LIST are the case `cfg.toC`: same domain, same data packets, same configuration for
+scripts and sends, same prescribed packets — `C10_gs3_query_faulty` is an instance of `C10_gs3_query_faulty_cut`. -/
+theorem C10_gs3_faults_cut_conservative (cfg : ConfigX) (st : State) (plan : Plan) :
+    wfC cfg.toC st = wfX cfg st ∧ dataPacketsC cfg.toC st = dataPacketsX cfg st ∧ cfg.toC.closed = cfg
+    ∧ faultyPacketsC cfg.toC st plan = faultyPacketsX cfg st plan := by
+  obtain ⟨e1, e2, e3⟩ := faulty_toC cfg st plan
+  exact ⟨wfC_toC cfg st, e3, e1, e2⟩
+
+-- non-vacuity: the reply of `Props/C04_gs3.lean` whose ten packets all but the last end inside a value list, retries = 2:
+-- the challenge reply lost once, then the reply stops after its first data packet, then it arrives whole: the state, 3 attempts
+example (port : Nat) (restQ : List Delivery) :
+    (Gs3.query port 2 (Net.init [.opened (faultyScriptX C04_gs3_cutConfig.closed
+          ⟨[⟨.handshake, false, []⟩, ⟨.data, false, (dataPacketsC C04_gs3_cutConfig C04_gs3_cutState).take 1⟩], .valid⟩
+          (dataPacketsC C04_gs3_cutConfig C04_gs3_cutState) ++ restQ)]
+        (faultyFaults ⟨[⟨.handshake, false, []⟩, ⟨.data, false, (dataPacketsC C04_gs3_cutConfig C04_gs3_cutState).take 1⟩], .valid⟩ ++ []))).1
+      = .ok (expected C04_gs3_cutState) :=
+  (C10_gs3_query_recovers_cut C04_gs3_cutConfig C04_gs3_cutState C04_gs3_cut_example_wf.1 port 2 _
+    (List.Perm.refl _) [⟨.handshake, false, []⟩, ⟨.data, false, (dataPacketsC C04_gs3_cutConfig C04_gs3_cutState).take 1⟩]
+    (by decide) (by decide +kernel) restQ []).1
